@@ -20,8 +20,8 @@ ID = "C12"
 LEVEL = "fault_enumeration"
 RULE = (
     "Valid base inputs (1-3 assets, default column layout, flavours mixed / buy-only / income-only / transfer-heavy) + exactly "
-    "one fault - class = hash of the drawn base input over the applicable classes (close to uniform), classes applicable at several positions counting double; position drawn - from a catalogue of ~115 fault classes grounded in C12's statement (unknown asset/exchange/holder, other asset, timestamp without zone "
-    "or unparseable, type not allowed in its table, zero/negative amounts and fees, zero price where required, "
+    "one fault - class = hash of the drawn base input over the applicable classes (close to uniform), classes applicable at several positions counting double; position drawn - from a catalogue of ~115 fault classes grounded in C12's statement (unknown asset/exchange/holder - a third of them a configured name padded with white space -, other asset, timestamp without zone "
+    "or unparseable, type not allowed in its table, zero/negative amounts and fees, zero price where required (also on rows with exchange-supplied fiat values), "
     "received > sent, both fees, text / numeric-looking text / empty cell in a mandatory numeric field, row shorter than "
     "the mapped columns, broken table structure in 12 variants, config faults in 17 variants, CLI faults in 10 variants), "
     "injected at a generated applicable (sheet, table, data row, field) position; one real CLI run per case. Every case is "
@@ -33,7 +33,7 @@ ASSUMPTIONS = [
     "which message is printed is not asserted, only that one is",
 ]
 
-HIST = gen.GenCfg(min_steps=3, max_steps=9, max_exchanges=2, max_holders=2)
+HIST = gen.GenCfg(min_steps=3, max_steps=9, max_exchanges=2, max_holders=2, fiat_columns=True)
 
 IN_ONLY_BAD = ["SELL", "FEE", "LOST", "MOVE", "FOO", ""]
 OUT_ONLY_BAD = ["BUY", "AIRDROP", "HARDFORK", "INCOME", "INTEREST", "MINING", "WAGES", "MOVE", "BAR"]
@@ -87,6 +87,8 @@ def applicable_faults(case: Dict[str, Any]) -> Dict[str, List[Any]]:
             f["zero_amount/in.crypto_in"] = non_staking
             f["negative_amount/in.crypto_in"] = non_staking
         f["zero_price/in"] = any_in
+        # ... also where the exchange supplied the fiat value itself, so the price is not needed to convert the amount
+        f["zero_price/in.fiat_supplied"] = _rows(case, "in", lambda r: "fiat_in_no_fee" in r or "fiat_in_with_fee" in r)
         f["negative_price/in"] = any_in
         f["negative_fee/in.fiat_fee"] = any_in
         f["negative_fee/in.crypto_fee"] = any_in
@@ -107,6 +109,8 @@ def applicable_faults(case: Dict[str, Any]) -> Dict[str, List[Any]]:
             f["zero_amount/out.crypto_out_no_fee"] = non_fee
             f["negative_amount/out.crypto_out_no_fee"] = non_fee
             f["zero_price/out"] = non_fee
+            f["zero_price/out.fiat_supplied"] = _rows(case, "out", lambda r: r["type"].lower() != "fee" and "fiat_out_no_fee" in r)
+            f["zero_amount/out.crypto_out_no_fee.fiat_supplied"] = _rows(case, "out", lambda r: r["type"].lower() != "fee" and "fiat_out_no_fee" in r)
             f["negative_fee/out.crypto_fee"] = non_fee
         if fee_rows:
             f["zero_fee_on_fee_typed/out"] = fee_rows
@@ -196,7 +200,8 @@ def strategy_case(draw: Any, one_shot_weight: int = 1) -> Dict[str, Any]:
     # and every class is expected several times per quick run.  Classes that apply at several positions (row-level faults:
     # whether they are noticed can depend on the row, e.g. only rows that later take part in a gain/loss pairing) count double.
     # The position and the base input stay plain draws.
-    weighted = [k for k in sorted(faults) for _ in range(2 if len(faults[k]) > 1 else one_shot_weight)]
+    # (... and the classes that need a row with an exchange-supplied fiat value, present in about half of the inputs, triple)
+    weighted = [k for k in sorted(faults) for _ in range(3 if k.endswith(".fiat_supplied") else 2 if len(faults[k]) > 1 else one_shot_weight)]
     kind = weighted[case_hash(base) % len(weighted)]
     position = draw(st.sampled_from(faults[kind]))
     base["fault"] = {"kind": kind, "position": list(position) if isinstance(position, tuple) else position, "variant": draw(st.integers(0, 5))}
@@ -272,10 +277,12 @@ def build(case: Dict[str, Any], folder: str, with_fault: bool = True) -> Tuple[s
         _cell(grids, case, pos, "asset", other)
     elif head == "unknown_exchange":
         field = {"in": "exchange", "out": "exchange", "intra.from": "from_exchange", "intra.to": "to_exchange"}[target]
-        _cell(grids, case, pos, field, ["Binance", "coinbase", "Coinbase  Pro", " Kraken x"][variant % 4])
+        # ... a third of them a configured name padded with white space (what a sloppy export or a stray key press produces):
+        # the configured names are listed verbatim in the .ini, "Kraken " is not one of them
+        _cell(grids, case, pos, field, ["Binance", "coinbase", "Coinbase  Pro", " Kraken x", exchanges[0] + " ", " " + exchanges[-1]][variant % 6])
     elif head == "unknown_holder":
         field = {"in": "holder", "out": "holder", "intra.from": "from_holder", "intra.to": "to_holder"}[target]
-        _cell(grids, case, pos, field, ["Carol", "bob", "Bob Jr"][variant % 3])
+        _cell(grids, case, pos, field, ["Carol", "bob", "Bob Jr", holders[0] + " ", " " + holders[-1], holders[0] + "  "][variant % 6])
     elif head == "timestamp_without_zone":
         asset, ti, ri = pos
         ts = case["assets"][asset]["tables"][ti][1][ri]["ts"]
@@ -287,7 +294,7 @@ def build(case: Dict[str, Any], folder: str, with_fault: bool = True) -> Tuple[s
     elif head == "type_not_allowed":
         _cell(grids, case, pos, "transaction_type", (IN_ONLY_BAD if target == "in" else OUT_ONLY_BAD)[variant % (len(IN_ONLY_BAD) if target == "in" else len(OUT_ONLY_BAD))] or None)
     elif head in ("zero_amount", "negative_amount"):
-        table, field = target.split(".")
+        table, field = target.split(".")[:2]
         _cell(grids, case, pos, field, 0.0 if head == "zero_amount" else [-1.0, -0.00000001][variant % 2])
     elif head == "zero_price":
         _cell(grids, case, pos, "spot_price", 0.0)
